@@ -54,6 +54,7 @@ type frameSpec struct {
 	pad              int // link-layer padding bytes after the IP packet
 	cut              int // keep only the first cut bytes (-1: all)
 	udpLenDelta      int
+	cksum            bool // the UDP checksum is filled in (RFC 768, computed over pseudo-header, UDP header and payload); else 0: none
 }
 
 func sum16(b []byte) uint16 {
@@ -102,6 +103,14 @@ func (fs frameSpec) build(rng *rand.Rand) []byte {
 	u[2], u[3] = byte(fs.dport>>8), byte(fs.dport)
 	ul := 8 + len(fs.payload) + fs.udpLenDelta
 	u[4], u[5] = byte(ul>>8), byte(ul)
+	if fs.cksum {
+		ps := append(append(append([]byte{}, h[12:20]...), 0, 17, u[4], u[5]), u...)
+		c := ^sum16(append(ps, fs.payload...))
+		if c == 0 {
+			c = 0xffff
+		}
+		u[6], u[7] = byte(c>>8), byte(c)
+	}
 	f := append(append(h, u...), fs.payload...)
 	for i := 0; i < fs.pad; i++ {
 		f = append(f, byte(rng.Intn(256)))
@@ -118,6 +127,7 @@ func randFrameSpec(rng *rand.Rand, boundPort int, boundIP net.IP) frameSpec {
 	if boundIP != nil && rng.Intn(2) == 0 {
 		fs.dst = boundIP
 	}
+	fs.cksum = rng.Intn(2) == 0 // senders that checksum and senders that do not
 	switch rng.Intn(16) {
 	case 0:
 		fs.ihl = 6 + rng.Intn(10)
@@ -311,7 +321,7 @@ func genC18(o *Out, rng *rand.Rand, tier string) {
 		for _, ihl := range []int{5, 6, 10, 15} {
 			for _, pad := range []int{0, 1, 6, 18, 40, 46, 60} {
 				fs := frameSpec{version: 4, ihl: ihl, proto: 17, src: net.IPv4(10, 0, 0, 9).To4(), dst: net.IPv4bcast.To4(), sport: 67, dport: 68,
-					payload: randBytes(rng, plen), pad: pad, cut: -1}
+					payload: randBytes(rng, plen), pad: pad, cut: -1, cksum: (plen+ihl+pad)%2 == 0}
 				f := fs.build(rng)
 				sc := &scriptConn{frames: [][]byte{f}}
 				c := nclient4.NewBroadcastUDPConn(sc, &net.UDPAddr{Port: 68})
